@@ -138,6 +138,8 @@ fn tapes(v: Variant, seed: u64, tweak: u32) -> (Vec<u8>, Vec<u8>) {
                 3 => { r[128..160].iter_mut().for_each(|b| *b = 0xff); s[..32].iter_mut().for_each(|b| *b = 0xff); }
                 6..=8 => { for h in 0..2 { structured_beta(&mut r[h * EOT_RTAPE..h * EOT_RTAPE + 128], seed + h as u64, tweak); } }
                 5 => s[2 * 512 * 32..].iter_mut().for_each(|b| *b = 0),      // the eta0 draws (after the two base-OT senders' draws) are zero
+                // 9: zero exponents of the base-OT SENDERS in a few slots (both points of the slot are the identity: an honest message)
+                9 => { for o in [0usize, 64 * 255, 512 * 32 + 64 * 3] { s[o..o + 64].iter_mut().for_each(|b| *b = 0); } }
                 _ => {}
             }
             (r, s)
@@ -874,6 +876,14 @@ fn run_c01(o: &Opts, cx: &mut Ctx) {
             scenario(cx, &format!("{} honest", key_of(v, prov, sid, &a, seed, 0).line()));
         }
     }
+    // ---- base-OT variant: sender exponents that are zero in a few slots (identity points on the wire, an honest message)
+    {
+        let a = [special_scalar(&mut rng, 3), special_scalar(&mut rng, 3)];
+        let key = key_of(Variant::Ot, "na", gen_sid(&mut rng, 60), &a, rng.next_u64() >> 1, 9);
+        cx.cache.clear();
+        cx.rep.hist("zero-on-the-wire:identity points in the base-OT reply");
+        scenario(cx, &format!("{} honest", key.line()));
+    }
     // ---- seed sets whose punctured indices are all equal (all 0 / all 15): honest exchanges must go through
     for d in [0u8, 15] {
         let a = [special_scalar(&mut rng, 3), special_scalar(&mut rng, 1)];
@@ -964,6 +974,13 @@ fn run_c02(o: &Opts, cx: &mut Ctx) {
         let tweak = [0u32, 1, 2, 3, 6, 7, 8][k % 7];
         let key = key_of(v, if v == Variant::Ot { "na" } else if k % 2 == 0 { "syn" } else { "pipe" }, gen_sid(&mut rng, k), &a, rng.next_u64() >> 1, tweak);
         cx.cache.clear();
+        scenario(cx, &format!("{} honest", key.line()));
+    }
+    // honest base-OT-variant message carrying identity points (zero sender exponents in a few slots): must be accepted
+    {
+        let key = key_of(Variant::Ot, "na", gen_sid(&mut rng, 61), &[rand_scalar(&mut rng), rand_scalar(&mut rng)], rng.next_u64() >> 1, 9);
+        cx.cache.clear();
+        cx.rep.hist("zero-on-the-wire:identity points in the base-OT reply");
         scenario(cx, &format!("{} honest", key.line()));
     }
     if timing { eprintln!("honest {:?}", t0.elapsed()); }
